@@ -68,9 +68,15 @@ func (d *dbConn) RegisterObservationLog(trialName string, observationLog *v1beta
 	sqlQuery := "INSERT INTO observation_logs (trial_name, time, metric_name, value) VALUES "
 	values := []interface{}{}
 
+	if observationLog == nil {
+		return fmt.Errorf("Observation log is missing in the request")
+	}
 	for _, mlog := range observationLog.MetricLogs {
-		if mlog.TimeStamp == "" {
+		if mlog.GetTimeStamp() == "" {
 			continue
+		}
+		if mlog.Metric == nil {
+			return fmt.Errorf("Metric is missing in the metric log at %s", mlog.TimeStamp)
 		}
 		t, err := time.Parse(time.RFC3339Nano, mlog.TimeStamp)
 		if err != nil {
